@@ -42,3 +42,55 @@ package proxy
 //@   at-call disconnect#1 as disc
 //@   at-call Lock#1 as proceed: assert res(cfg).Forwarding.Mode != config.VelocityForwardingMode || (called(fwd) && res(fwd))
 //@   ensures [refused] called(fwd) && !res(fwd) ==> called(refuse) && called(disc) && !called(proceed)
+
+// ---- C43: server list ping -------------------------------------------------------------------------
+
+// Unknown packets and anything that is not a status request / ping close the connection without an answer;
+// requests and pings are dispatched to their handlers by dynamic type.
+//@ func (*statusSessionHandler).HandlePacket
+//@   props C43
+//@   at-call KnownPacket as kp: assert arg0 == pc
+//@   at-call handleStatusRequest as hr: assert arg0 == h && arg1 == pc && dyntype(pc.Packet, "packet.StatusRequest")
+//@   at-call handleStatusPing as hp: assert arg0 == h && arg1 == pc && dyntype(pc.Packet, "packet.StatusPing")
+//@   at-call Close as cl: assert arg0 == h.conn
+//@   ensures [always-handled] called(hr) || called(hp) || called(cl)
+//@   ensures [unknown-closes] called(kp) && !res(kp) ==> called(cl) && !called(hr) && !called(hp)
+//@   ensures [other-closes] !dyntype(old(pc.Packet), "packet.StatusRequest") && !dyntype(old(pc.Packet), "packet.StatusPing") ==> called(cl) && !called(hr) && !called(hp)
+
+// A second request closes without a response; the first marks the request as received before anything else and
+// produces at most one response; in classic mode (no resolver) the ping is built from the client's protocol and,
+// when the event leaves a ping, the inbound is active and JSON encoding succeeds, the response is written.
+//@ func (*statusSessionHandler).handleStatusRequest
+//@   props C43
+//@   at-call Close as cl: assert arg0 == h.conn
+//@   at-store receivedRequest: assert value && !called(np) && !called(wr)
+//@   at-call newInitialPing as np: assert arg0 == h.proxy && arg1 == pc.Protocol && !old(h.receivedRequest)
+//@   at-call Active as act
+//@   at-call Marshal as js
+//@   at-call writeStatusResponse as wr: assert arg0 == h && !old(h.receivedRequest) && !called(cl)
+//@   at-call writeStatusResponse#1 as w1
+//@   at-call writeStatusResponse#2 as w2: assert called(js) && res(js, 1) == nil && streq(cast(arg2, *packet.StatusResponse).Status, bytes(res(js, 0)))
+//@   ensures [repeat-closes-silently] old(h.receivedRequest) ==> called(cl) && !called(wr)
+//@   ensures [at-most-one-response] !(called(w1) && called(w2))
+//@   ensures [classic-responds] !old(h.receivedRequest) && called(np) && called(act) && res(act) && called(js) && res(js, 1) == nil ==> called(w2)
+
+//@ func (*statusSessionHandler).writeStatusResponse
+//@   props C43
+//@   at-call WritePacket as wp: assert arg0 == h.conn && ref(arg1) == response
+//@   ensures [writes-once] called(wp)
+
+// The advertised protocol is the client's when supported, else the newest; the player count is the registry's.
+//@ func newInitialPing
+//@   props C43
+//@   at-call Supported as sup: assert arg0 == protocol
+//@   at-call PlayerCount as cnt: assert arg0 == p
+//@   ensures [protocol] called(sup) && result.Version.Protocol == ite(res(sup), protocol, version.MaximumVersion.Protocol)
+//@   ensures [online-count] called(cnt) && result.Players != nil && result.Players.Online == res(cnt)
+
+// The ping is answered with the very bytes received and the connection is closed on every path.
+//@ func (*statusSessionHandler).handleStatusPing
+//@   props C43
+//@   at-call Write as echo: assert [same-payload] arg0 == h.conn && arg1 == p.Payload
+//@   at-call Write: assert [payload-untouched] forall i int :: 0 <= i && i < len(arg1) ==> arg1[i] == old(p.Payload[i])
+//@   at-call Close as cl: assert arg0 == old(h.conn)
+//@   ensures [echo-then-close] called(echo) && called(cl)
